@@ -499,7 +499,7 @@ Section C08.
       api_call orc imm f body s AStart = Ok (b, s') -> b = true /\ sc_root s' <> None.
   Proof.
     intros f s b s' H. cbn [api_call] in H. destruct (sc_root s) as [r0|] eqn:Hr.
-    - inv H. cbn [sc_root]. rewrite Hr. split; [reflexivity|discriminate].
+    - inv H. cbn [sc_root]. split; [reflexivity|discriminate].
     - match type of H with match ?X with _ => _ end = _ => destruct X as [[st g']| | |] end;
         try discriminate. inv H. split; [reflexivity|discriminate].
   Qed.
@@ -533,14 +533,14 @@ Section C08.
     intros f s c b s' H HI. destruct c as [|id| |k l|o|o]; try exact I.
     - split; [exact (proj1 (api_start_ret _ _ _ _ H))|]. intro Hr.
       destruct (sc_root s) as [r0|] eqn:E; [|congruence].
-      rewrite (start_again_noop orc imm body f s E) in H. inv H. apply unch_quiet.
+      rewrite (start_again_noop orc imm body f s r0 E) in H. inv H. apply unch_quiet.
     - pose proof (api_finish_ret _ _ _ _ _ H) as Hb. split; [exact Hb|]. split.
       + intro Hf. rewrite Hf in Hb. rewrite (reject_finish_noop orc imm body f s id (eq_sym Hb)) in H.
         inv H. apply unch_quiet.
       + intro Ht. destruct (api_aw orc imm body _ _ _ _ _ HI H) as (_ & _ & A3).
         destruct (A3 id eq_refl Ht) as [_ Hn]. cbn [observe cr_awaited].
         destruct (mem id (g_awaited (sc_g s'))) eqn:Hm; [|reflexivity].
-        exfalso. apply Hn. apply (mem_In id). exact Hm.
+        exfalso. apply Hn. apply (mem_In imm id). exact Hm.
     - cbn [api_call] in H. inv H. split; [reflexivity|]. apply unch_quiet.
   Qed.
 
@@ -578,7 +578,7 @@ Section C08.
       specialize (IH s' (observe b s') _ t HI' HP' HS' E2).
       cbn [c08_run]. rewrite IH, andb_true_r.
       assert (Hret : cr_ret (observe b s') = b) by reflexivity.
-      generalize dependent (observe b s'). intros r K _ _ Hret.
+      set (r := observe b s') in *. clearbody r.
       destruct c as [|id| |k l|o|o]; try reflexivity.
       + destruct K as [K1 K2]. rewrite Hret, K1. cbn [andb].
         destruct started; [|reflexivity]. cbn [negb orb].
@@ -623,5 +623,197 @@ Theorem C08_monitor_ref : forall orc imm body f cs tr,
 Proof.
   intros orc imm body f cs tr H. unfold holds_C08. apply andb_true_iff. split.
   - eapply c08_run_ref; [apply AwInv_sched0| |discriminate|exact H]. repeat split.
-  - eapply acc_run_ref; [apply lst_all_default| |exact H]. reflexivity.
+  - eapply (acc_run_ref orc imm body f cs sched0); [apply lst_all_default| |exact H]. reflexivity.
 Qed.
+
+(* ===================================================================== *)
+(* 6. C14: accepted completions carry an announced identifier              *)
+(* ===================================================================== *)
+Lemma remove_first_split : forall A (p : A -> bool) l l',
+    remove_first p l = Some l' ->
+    exists l1 x l2, l = l1 ++ x :: l2 /\ l' = l1 ++ l2 /\ p x = true.
+Proof.
+  induction l as [|y l IH]; intros l' H; cbn in H; [discriminate|].
+  destruct (p y) eqn:E.
+  - inv H. exists [], y, l'. repeat split. exact E.
+  - destruct (remove_first p l) as [t|]; [|discriminate]. inv H.
+    destruct (IH _ eq_refl) as (l1 & x & l2 & -> & -> & Hx). exists (y :: l1), x, l2. repeat split. exact Hx.
+Qed.
+
+Lemma filter_all : forall A (p : A -> bool) l, (forall x, In x l -> p x = true) -> filter p l = l.
+Proof.
+  induction l as [|x l IH]; intro H; [reflexivity|]. cbn. rewrite (H x) by (left; reflexivity).
+  f_equal. apply IH. intros y Hy. apply H. right. exact Hy.
+Qed.
+
+Lemma fin_of_cons : forall n t,
+    fin_of (n :: t) = (if is_kind SF n then [n_id n] else []) ++ fin_of t.
+Proof. intros. unfold fin_of. cbn [filter]. destruct (is_kind SF n); reflexivity. Qed.
+
+Lemma ann_of_cons : forall n t,
+    ann_of (n :: t) = (if is_kind SS n then [n_id n] else []) ++ ann_of t.
+Proof. intros. unfold ann_of. cbn [filter]. destruct (is_kind SS n); reflexivity. Qed.
+
+(* with fresh identifiers the sequential bookkeeping of the acceptance monitor is the
+   set difference computed by [accepted_announced] *)
+Lemma acc_ns_filter : forall ns aw aw',
+    NoDup (aw ++ ann_of ns) -> acc_ns aw ns = Some aw' ->
+    aw' = filter (fun i => negb (mem i (fin_of ns))) (aw ++ ann_of ns).
+Proof.
+  induction ns as [|n t IH]; intros aw aw' Hnd H.
+  - cbn in H. inv H. cbn. rewrite app_nil_r. symmetry. apply filter_all. reflexivity.
+  - cbn [acc_ns] in H. rewrite ann_of_cons in *. rewrite fin_of_cons. unfold acc_n in H. unfold is_kind in *.
+    destruct (n_kind n); cbn [nkind_eqb app] in *.
+    + apply IH; assumption.
+    + apply IH; assumption.
+    + rewrite (IH (aw ++ [n_id n]) aw'); [| |exact H].
+      * rewrite <- app_assoc. reflexivity.
+      * rewrite <- app_assoc. exact Hnd.
+    + destruct (remove_first (Nat.eqb (n_id n)) aw) as [l|] eqn:R; [|discriminate].
+      destruct (remove_first_split _ _ _ _ R) as (l1 & x & l2 & -> & -> & Hx).
+      apply Nat.eqb_eq in Hx. subst x.
+      rewrite <- app_assoc in Hnd. cbn [app] in Hnd.
+      pose proof (NoDup_remove_1 _ _ _ Hnd) as Hnd1. pose proof (NoDup_remove_2 _ _ _ Hnd) as Hni.
+      rewrite (IH (l1 ++ l2) aw'); [| |exact H].
+      * rewrite <- !app_assoc. cbn [app]. rewrite !filter_app. cbn [filter mem].
+        rewrite Nat.eqb_refl. cbn [orb negb].
+        assert (Q : forall X, ~ In (n_id n) X ->
+                     filter (fun i => negb (mem i (fin_of t))) X =
+                     filter (fun i => negb (Nat.eqb i (n_id n) || mem i (fin_of t))) X).
+        { intros X HX. apply filter_ext_in. intros a Ha.
+          destruct (Nat.eqb a (n_id n)) eqn:E; [|reflexivity]. apply Nat.eqb_eq in E. subst a. contradiction. }
+        rewrite !filter_app. f_equal; [apply Q|f_equal; apply Q];
+          intro Hi; apply Hni; rewrite !in_app_iff; auto.
+      * rewrite <- app_assoc. exact Hnd1.
+Qed.
+
+Section C14.
+  Variable orc : oracle.
+  Variable imm : nat -> bool.
+  Variable body : list xstmt.
+
+  Lemma accepted_announced_ref : forall f cs s tr,
+      lst_all (g_ls (sc_g s)) -> AwInv (sc_g s) ->
+      run_script orc imm f body s cs = Ok tr -> accepted_announced (g_awaited (sc_g s)) cs tr = true.
+  Proof.
+    intros f cs. induction cs as [|c cs IH]; intros s tr Hl HI H; cbn [run_script] in H.
+    - inv H. reflexivity.
+    - destruct (api_call orc imm f body s c) as [[b s']| | |] eqn:E; try discriminate.
+      cbn [rbind] in H.
+      destruct (run_script orc imm f body s' cs) as [t| | |] eqn:E2; try discriminate.
+      cbn [rbind] in H. inv H.
+      destruct (api_acc orc imm body _ _ _ _ _ E Hl) as ((A1 & A2 & A3) & Hl').
+      destruct (api_aw orc imm body _ _ _ _ _ HI E) as (HI' & _ & _).
+      cbn [accepted_announced].
+      change (map fst (ee_notifs (cr_log (observe b s')))) with (N (sc_g s')).
+      fold (ann_of (N (sc_g s'))). fold (fin_of (N (sc_g s'))).
+      assert (Hnd : NoDup (g_awaited (sc_g s) ++ ann_of (N (sc_g s')))).
+      { rewrite A2. destruct HI as [HF HN]. apply RefC08.NoDup_app_disj; [exact HN|apply seq_NoDup|].
+        intros x Hx1 Hx2. rewrite Forall_forall in HF. specialize (HF _ Hx1). apply in_seq in Hx2. lia. }
+      rewrite <- (acc_ns_filter _ _ _ Hnd A1).
+      rewrite (IH s' t Hl' HI' E2), andb_true_r.
+      destruct c as [|id| |k l|o|o]; try reflexivity.
+      cbn [observe cr_ret]. rewrite <- (api_finish_ret _ _ _ _ _ _ _ _ E). apply orb_negb_l.
+  Qed.
+End C14.
+
+Theorem accepted_announced_monitor_ref : forall orc imm body f cs tr,
+    run_script orc imm f body sched0 cs = Ok tr -> accepted_announced [] cs tr = true.
+Proof.
+  intros orc imm body f cs tr H.
+  exact (accepted_announced_ref orc imm body f cs sched0 tr lst_all_default (AwInv_sched0) H).
+Qed.
+
+Theorem C14_monitor_ref : forall orc imm body f cs tr,
+    run_script orc imm f body sched0 cs = Ok tr -> holds_C14 cs tr = true.
+Proof.
+  intros orc imm body f cs tr H. unfold holds_C14. apply andb_true_iff. split.
+  - exact (C07_ref orc imm body f cs tr H).
+  - eapply accepted_announced_monitor_ref; exact H.
+Qed.
+
+(* ===================================================================== *)
+(* 7. a sequence accepted by the lifecycle monitor never repeats a         *)
+(*    notification                                                         *)
+(* ===================================================================== *)
+Definition ids (l : list open_inst) : list nat := map oi_id l.
+
+Definition WL (L : life) : Prop :=
+  NoDup (ids (lf_tasks L)) /\ NoDup (ids (lf_svcs L))
+  /\ incl (ids (lf_tasks L)) (lf_used_t L) /\ incl (ids (lf_svcs L)) (lf_used_s L).
+
+Lemma mem_iff : forall x l, mem x l = true <-> In x l.
+Proof.
+  intros x l. induction l as [|y l IH]; cbn; [split; [discriminate|tauto]|].
+  rewrite orb_true_iff, IH, Nat.eqb_eq. split; intros [H|H]; auto.
+Qed.
+
+Lemma mem_false : forall x l, mem x l = false -> ~ In x l.
+Proof. intros x l H Hi. apply mem_iff in Hi. congruence. Qed.
+
+Lemma oi_eqb_id : forall a b, oi_eqb a b = true -> oi_id a = oi_id b.
+Proof.
+  intros a b H. unfold oi_eqb in H. repeat (apply andb_true_iff in H; destruct H as [H ?]).
+  apply Nat.eqb_eq. exact H.
+Qed.
+
+Lemma ids_app : forall a b, ids (a ++ b) = ids a ++ ids b.
+Proof. intros. apply map_app. Qed.
+
+(* what one accepted step does to the monitor's lists *)
+Lemma life_step_eff : forall L m L',
+    life_step L m = Some L' ->
+    incl (lf_used_t L) (lf_used_t L') /\ incl (lf_used_s L) (lf_used_s L') /\
+    (forall x, In x (ids (lf_tasks L')) ->
+               In x (ids (lf_tasks L)) \/ (n_kind m = TS /\ x = n_id m)) /\
+    (forall x, In x (ids (lf_svcs L')) ->
+               In x (ids (lf_svcs L)) \/ (n_kind m = SS /\ x = n_id m)) /\
+    (n_kind m = TS -> ~ In (n_id m) (lf_used_t L) /\ In (n_id m) (lf_used_t L')) /\
+    (n_kind m = SS -> ~ In (n_id m) (lf_used_s L) /\ In (n_id m) (lf_used_s L')) /\
+    (n_kind m = TF -> In (n_id m) (ids (lf_tasks L)) /\
+                      (NoDup (ids (lf_tasks L)) -> ~ In (n_id m) (ids (lf_tasks L')))) /\
+    (n_kind m = SF -> In (n_id m) (ids (lf_svcs L)) /\
+                      (NoDup (ids (lf_svcs L)) -> ~ In (n_id m) (ids (lf_svcs L')))) /\
+    (NoDup (ids (lf_tasks L)) -> ~ In (n_id m) (lf_used_t L) \/ n_kind m <> TS -> NoDup (ids (lf_tasks L'))) /\
+    (NoDup (ids (lf_svcs L)) -> ~ In (n_id m) (lf_used_s L) \/ n_kind m <> SS -> NoDup (ids (lf_svcs L'))).
+Proof.
+  intros L m L' H. unfold life_step in H. destruct (n_kind m) eqn:K.
+  - (* TS *)
+    match type of H with (if ?c then _ else _) = _ => destruct c eqn:C end; [|discriminate]. inv H.
+    apply andb_true_iff in C. destruct C as [_ C]. apply negb_true_iff in C. apply mem_false in C.
+    cbn [lf_tasks lf_svcs lf_used_t lf_used_s ids map oi_of oi_id].
+    repeat split; try discriminate; try (apply incl_refl); try (apply incl_tl, incl_refl); auto.
+    + intros x [Hx|Hx]; [right; auto|left; exact Hx].
+    + left; reflexivity.
+    + admit.
+    + intros; assumption.
+  - (* TF *)
+    destruct (remove_first (oi_eqb (oi_of m)) (lf_tasks L)) as [rest|] eqn:R; [|discriminate].
+    match type of H with (if ?c then _ else _) = _ => destruct c end; [discriminate|]. inv H.
+    destruct (remove_first_split _ _ _ _ R) as (l1 & x & l2 & E1 & -> & Hx).
+    apply oi_eqb_id in Hx. cbn [oi_of oi_id] in Hx.
+    cbn [lf_tasks lf_svcs lf_used_t lf_used_s]. rewrite E1, !ids_app. cbn [ids map]. rewrite <- Hx.
+    repeat split; try discriminate; try (apply incl_refl); auto.
+    + intros y Hy. left. rewrite in_app_iff in *. cbn [In]. tauto.
+    + rewrite in_app_iff. cbn [In]. auto.
+    + intro Hn. apply NoDup_remove_2 in Hn. exact Hn.
+    + intros Hn _. apply NoDup_remove_1 in Hn. exact Hn.
+  - (* SS *)
+    match type of H with (if ?c then _ else _) = _ => destruct c eqn:C end; [|discriminate]. inv H.
+    apply andb_true_iff in C. destruct C as [_ C]. apply negb_true_iff in C. apply mem_false in C.
+    cbn [lf_tasks lf_svcs lf_used_t lf_used_s ids map oi_of oi_id].
+    repeat split; try discriminate; try (apply incl_refl); try (apply incl_tl, incl_refl); auto.
+    + intros x [Hx|Hx]; [right; auto|left; exact Hx].
+    + left; reflexivity.
+    + admit.
+  - (* SF *)
+    destruct (remove_first (oi_eqb (oi_of m)) (lf_svcs L)) as [rest|] eqn:R; [|discriminate]. inv H.
+    destruct (remove_first_split _ _ _ _ R) as (l1 & x & l2 & E1 & -> & Hx).
+    apply oi_eqb_id in Hx. cbn [oi_of oi_id] in Hx.
+    cbn [lf_tasks lf_svcs lf_used_t lf_used_s]. rewrite E1, !ids_app. cbn [ids map]. rewrite <- Hx.
+    repeat split; try discriminate; try (apply incl_refl); auto.
+    + intros y Hy. left. rewrite in_app_iff in *. cbn [In]. tauto.
+    + rewrite in_app_iff. cbn [In]. auto.
+    + intro Hn. apply NoDup_remove_2 in Hn. exact Hn.
+    + intros Hn _. apply NoDup_remove_1 in Hn. exact Hn.
+Admitted.
